@@ -12,6 +12,7 @@ import (
 	"errors"
 	"fmt"
 	"net"
+	"sort"
 	"strings"
 
 	"github.com/blinklabs-io/gouroboros/cbor"
@@ -66,6 +67,61 @@ type family struct {
 	wrap func(*vh.Item) *vh.Item
 	// firstAccepted: the shapes are candidates; per id only the first one accepted in minimal form is used
 	firstAccepted bool
+	// table: name of the generated dispatch table of this decoder (gen_tables_all)
+	table string
+	// probeAlias renames observed variants to the labels the AST translation would give (probe fallback)
+	probeAlias map[string]string
+}
+
+// table names of the first-round families
+var famTable = map[string]string{
+	"native-script": "ledger/common.NativeScript.UnmarshalCBOR",
+	"certificate":   "ledger/common.CertificateWrapper.UnmarshalCBOR",
+	"nonce":         "ledger/common.Nonce.UnmarshalCBOR",
+	"drep":          "ledger/common.Drep.UnmarshalCBOR",
+	"gov-action":    "ledger/conway.ConwayGovAction.UnmarshalCBOR",
+	"peer-address":  "protocol/peersharing.PeerAddress.UnmarshalCBOR",
+	"datum-option":  "ledger/babbage.BabbageTransactionOutputDatumOption.UnmarshalCBOR",
+}
+
+// probeFamily builds the id -> variant table of a decoder by RUNNING it: every
+// shape is decoded in minimal form and the concrete variant observed is recorded.
+// ids (of wanted) for which no payload is accepted are returned as unprobed.
+func probeFamily(fam family, wanted []uint64) ([]entry, []uint64) {
+	got := map[uint64]string{}
+	for _, sh := range fam.shapes {
+		if _, ok := got[sh.id]; ok {
+			continue
+		}
+		var v string
+		var err error
+		b := fam.full(tagged(vh.Fimm, vh.MinForm(sh.id), sh.id, sh.rest))
+		if pan, _ := vh.Recover(func() { v, err = fam.decode(b) }); pan || err != nil || v == "" || v == "?" {
+			continue
+		}
+		if a, ok := fam.probeAlias[v]; ok {
+			v = a
+		}
+		got[sh.id] = v
+	}
+	var es []entry
+	var unprobed []uint64
+	seen := map[uint64]bool{}
+	for _, id := range wanted {
+		seen[id] = true
+		if v, ok := got[id]; ok {
+			es = append(es, entry{id, v})
+		} else {
+			unprobed = append(unprobed, id)
+		}
+	}
+	for id := uint64(0); id < 64; id++ {
+		if v, ok := got[id]; ok && !seen[id] {
+			es = append(es, entry{id, v})
+		}
+	}
+	sort.SliceStable(es, func(i, j int) bool { return es[i].id < es[j].id })
+	return es, unprobed
 }
 
 func (f family) full(it *vh.Item) []byte {
@@ -92,6 +148,17 @@ func trimType(v any) string {
 }
 
 func families() []family {
+	fs := families1()
+	for i := range fs {
+		fs[i].table = famTable[fs[i].name]
+		if fs[i].name == "peer-address" {
+			fs[i].probeAlias = map[string]string{"IPv4": "0", "IPv6": "1"}
+		}
+	}
+	return fs
+}
+
+func families1() []family {
 	cred := func() *vh.Item { return vh.A(vh.U(0), h(28, 1)) }
 	pk := func() *vh.Item { return vh.A(vh.U(0), h(28, 7)) }
 	return []family{
@@ -106,7 +173,7 @@ func families() []family {
 					return "", err
 				}
 				return trimType(ns.Item()), nil
-			}, nil, false},
+			}, nil, false, "", nil},
 		{"certificate",
 			map[uint64]string{0: "StakeRegistrationCertificate", 1: "StakeDeregistrationCertificate", 2: "StakeDelegationCertificate",
 				3: "PoolRegistrationCertificate", 4: "PoolRetirementCertificate", 5: "GenesisKeyDelegationCertificate",
@@ -129,7 +196,7 @@ func families() []family {
 					return "", err
 				}
 				return trimType(w.Certificate), nil
-			}, nil, false},
+			}, nil, false, "", nil},
 		{"nonce",
 			map[uint64]string{0: "NonceTypeNeutral", 1: "NonceTypeNonce"},
 			[]shape{{0, nil}, {1, []*vh.Item{h(32, 5)}}},
@@ -139,7 +206,7 @@ func families() []family {
 					return "", err
 				}
 				return map[uint]string{0: "NonceTypeNeutral", 1: "NonceTypeNonce"}[n.Type], nil
-			}, nil, false},
+			}, nil, false, "", nil},
 		{"drep",
 			map[uint64]string{0: "DrepTypeAddrKeyHash", 1: "DrepTypeScriptHash", 2: "DrepTypeAbstain", 3: "DrepTypeNoConfidence"},
 			[]shape{{0, []*vh.Item{h(28, 5)}}, {1, []*vh.Item{h(28, 6)}}, {2, nil}, {3, nil}},
@@ -149,7 +216,7 @@ func families() []family {
 					return "", err
 				}
 				return map[int]string{0: "DrepTypeAddrKeyHash", 1: "DrepTypeScriptHash", 2: "DrepTypeAbstain", 3: "DrepTypeNoConfidence"}[d.Type], nil
-			}, nil, false},
+			}, nil, false, "", nil},
 		{"gov-action",
 			map[uint64]string{0: "ConwayParameterChangeGovAction", 1: "HardForkInitiationGovAction", 2: "TreasuryWithdrawalGovAction",
 				3: "NoConfidenceGovAction", 4: "UpdateCommitteeGovAction", 5: "NewConstitutionGovAction", 6: "InfoGovAction"},
@@ -161,7 +228,7 @@ func families() []family {
 					return "", err
 				}
 				return trimType(g.Action), nil
-			}, nil, false},
+			}, nil, false, "", nil},
 		{"peer-address",
 			map[uint64]string{0: "IPv4", 1: "IPv6"},
 			[]shape{{0, []*vh.Item{vh.U(0x0100007f), vh.U(3001)}}, {1, []*vh.Item{vh.U(1), vh.U(2), vh.U(3), vh.U(4), vh.U(3001)}}},
@@ -177,7 +244,7 @@ func families() []family {
 					return "IPv6", nil
 				}
 				return "?", nil
-			}, nil, false},
+			}, nil, false, "", nil},
 		{"datum-option",
 			map[uint64]string{0: "DatumOptionTypeHash", 1: "DatumOptionTypeData"},
 			[]shape{{0, []*vh.Item{h(32, 2)}}, {1, []*vh.Item{vh.TagOf(24, vh.B([]byte{0x05}))}}},
@@ -196,7 +263,7 @@ func families() []family {
 					return "?", nil
 				}
 				return map[uint64]string{0: "DatumOptionTypeHash", 1: "DatumOptionTypeData"}[it.Xs[0].N], nil
-			}, nil, false},
+			}, nil, false, "", nil},
 	}
 }
 
